@@ -532,6 +532,8 @@ def handleSmall (side op : String) (args : List Bytes) : Option String :=
     | some (tm, rest) =>
       let t : Int := ((timegmFFI tm.year.toNat.toUInt32 tm.mon.toNat.toUInt32 tm.mday.toNat.toUInt32
                         tm.hour.toNat.toUInt32 tm.min.toNat.toUInt32 tm.sec.toNat.toUInt32).toNat : Int) - 1099511627776
+      -- tparsec: -1 is the error value of timegm(3) (the civil time 1969-12-31 23:59:59; hypothesis `hne` / `Covered` of the theorems)
+      if op == "tparsec" && t == -1 then some "NONE" else
       let z := rest.drop (nspaces rest)
       match Model.tzoff z with
       | some off => some (optIntS (some (t - off)))
